@@ -224,6 +224,37 @@ def check(facts):
                 else:
                     r.ok(key, "early exit only on the is_some() edge")
 
+    # (b3) Match::named_group hands out a capture only from a group whose name equals the requested one
+    ngf = "api::Match::named_group"
+    if not facts.has_body(ngf):
+        r.error("anchor %s not found" % ngf)
+    else:
+        b = facts.body(ngf)
+        key = "%s selects captures by name equality" % ngf
+        calls = [(bb, t) for bb, t in b.iter_calls()]
+        picks = [t for bb, t in calls if (t.get("callee") or "").split("::")[-1] in ("find_map", "find", "next", "filter_map", "last", "nth")
+                 and "Iterator" in (t.get("callee") or "")]
+        skipping = [t for bb, t in calls if (t.get("callee") or "").split("::")[-1] in ("skip_while", "skip", "take_while", "step_by", "rev")]
+        filt = [t for bb, t in calls if (t.get("callee") or "").endswith("Iterator::filter")]
+        eq_in_closure = False
+        for cl in [n for n in facts.body_names() if n.startswith(ngf + "::{closure")]:
+            cb = facts.body(cl)
+            for _, tt in cb.iter_calls():
+                if (tt.get("callee") or "").endswith("PartialEq::eq"):
+                    eq_in_closure = True
+                if (tt.get("callee") or "").endswith("PartialEq::ne"):
+                    skipping.append(tt)
+        # loop form: an `==` on the name guarding the return is equally fine
+        loop_form = any((t.get("callee") or "").endswith("PartialEq::eq") for bb, t in calls)
+        if skipping:
+            r.fail(key, "named_group positions itself with %s instead of filtering by `name ==`: after the first group with that name it can "
+                        "return the capture of a later group with another name (a non-participating named group followed by a participating "
+                        "one)" % sorted({(t.get("callee") or "").split("::")[-1] for t in skipping}), facts.loc(ngf))
+        elif (filt and eq_in_closure and picks) or loop_form:
+            r.ok(key, "filter(name == ..) before the capture is picked")
+        else:
+            r.fail(key, "no equality test of the group name guards the capture named_group returns", facts.loc(ngf))
+
     # (c) successful_match: in-order pass over the whole store
     sm = [n for n in facts.body_names() if re.search(r"successful_match$", n)]
     if len(sm) < (1 if "pikevm::successful_match" not in facts.body_names() else 2):
